@@ -308,6 +308,21 @@ def _literal_job(job):
                 probs = check_tree(m, doc)
                 if errs:
                     probs.append(('import-errors', [e.encoding for e in errs][:3]))
+                # the same text through the file reader (import_file has its own line reader)
+                import os
+                import tempfile
+                fd, path = tempfile.mkstemp(suffix='.krn', prefix='kv02_')
+                try:
+                    with os.fdopen(fd, 'wb') as f:
+                        f.write(text.encode('utf-8'))
+                    acc.count('transitions')
+                    try:
+                        fdoc, ferrs = kp.load(path)
+                        probs += [(s + '-when-loaded-from-a-file', d) for s, d in check_tree(m, fdoc)]
+                    except Exception as e:  # noqa
+                        probs.append(('import-raises-when-loaded-from-a-file', f'{type(e).__name__}: {str(e)[:80]}'))
+                finally:
+                    os.unlink(path)
                 acc.outcome(tuple(p[0] for p in probs))
                 for sym, detail in probs[:2]:
                     acc.violation(Viol('literal-cell', sym, case, 'cell text taken literally', detail))
@@ -389,6 +404,20 @@ def replay(case):
     probs = check_tree(m, doc)
     probs += [p for p in public_view(m, doc) if p[0] != 'token-listing-cells'] + \
              [p for p in public_view(m, doc) if p[0] == 'token-listing-cells']
+    if cls == 'literal-cell':
+        import os
+        import tempfile
+        fd, path = tempfile.mkstemp(suffix='.krn', prefix='kv02_')
+        try:
+            with os.fdopen(fd, 'wb') as f:
+                f.write(text.encode('utf-8'))
+            try:
+                fdoc, _ = kp.load(path)
+                probs += [(s + '-when-loaded-from-a-file', d) for s, d in check_tree(m, fdoc)]
+            except Exception as e:  # noqa
+                probs.append(('import-raises-when-loaded-from-a-file', repr(e)[:80]))
+        finally:
+            os.unlink(path)
     if cls == 'literal-cell' and errs:
         probs.append(('import-errors', ''))
     for sym, detail in probs:
